@@ -47,6 +47,11 @@ Proof. exact parse_never_panics. Qed.
 Theorem C06_parse_tree_wellformed : forall re e st, valid_text re -> parse re = POk (e, st) -> wfe e.
 Proof. exact parse_wfe. Qed.
 
+(* a reported parse-error position is at most the pattern length (the defect F-errpos, repaired,
+   was a violation of exactly this; the model carries the repair) *)
+Theorem C06_error_position : forall re p er, valid_text re -> parse re = PErr p er -> p <= length re.
+Proof. exact parse_error_position. Qed.
+
 (* non-vacuity: a pattern with 2-byte characters, a class, an escape and a named group *)
 Example ex_valid : valid_text [40; 63; 60; 195; 169; 62; 195; 169; 91; 97; 45; 122; 93; 41; 92; 107; 60; 195; 169; 62].
 Proof.
@@ -70,3 +75,4 @@ Print Assumptions C06_to_str_total.
 Print Assumptions C06_fuel_is_linear.
 Print Assumptions C06_parse_never_panics.
 Print Assumptions C06_parse_tree_wellformed.
+Print Assumptions C06_error_position.
